@@ -127,7 +127,10 @@ StackLaw ==
                                          /\ XEffFmt(S') = XEffFmt(S) /\ S'.os = S.os)
 ExitLawP == [][ExitLaw /\ StackLaw]_vars
 
+\* (a manipulator reads and writes the current facet and the ios state only: with the rich alphabet - 784 pairs - the law is evaluated
+\* in the states with at most one live saver)
 InvCommute ==
+    (Rich => Len(S.stack) <= 1) =>
     \A a \in ManipSet : \A b \in ManipSet :
       LET sa == IoStep(S, a) sb == IoStep(S, b) ab == IoStep(sa, b) ba == IoStep(sb, a) IN
       /\ (XWrites(a) \cap XWrites(b) = {} => Law("disjoint manipulators commute", ab = ba))
